@@ -1,3 +1,389 @@
 package harness
 
-func childMain(mode string) int { return 2 }
+// C16 — saving a fail file is atomic with respect to process crashes.
+// Fault enumeration: a child process performs a real failing Check (fail files
+// on) under strace; for every file-system-affecting system call the main
+// thread issues while persisting, the child is re-run and killed (SIGKILL) on
+// entry to exactly that call.  Oracle: directory contents + trace.
+
+import (
+	"flag"
+	"fmt"
+	"os"
+	"os/exec"
+	"path/filepath"
+	"regexp"
+	"sort"
+	"strconv"
+	"strings"
+	"syscall"
+	"testing"
+
+	"pgregory.net/rapid"
+)
+
+func init() {
+	monitors["C16"] = &monitor{scenarios: c16Scenarios, run: c16Run}
+}
+
+const (
+	c16MarkBegin = "/verif-c16-marker-begin"
+	c16MarkEnd   = "/verif-c16-marker-end"
+	c16Syscalls  = "mkdir,mkdirat,open,openat,creat,write,pwrite64,writev,close,rename,renameat,renameat2,unlink,unlinkat,rmdir,fsync,fdatasync,ftruncate,link,linkat,symlink,symlinkat,access,faccessat,faccessat2,chmod,fchmod,fchmodat"
+)
+
+type childSentinel struct{}
+
+type childTB struct{ name string }
+
+func (c *childTB) Helper()                   {}
+func (c *childTB) Name() string              { return c.name }
+func (c *childTB) Logf(string, ...any)       {}
+func (c *childTB) Log(...any)                {}
+func (c *childTB) Skipf(string, ...any)      { panic(childSentinel{}) }
+func (c *childTB) Skip(...any)               { panic(childSentinel{}) }
+func (c *childTB) SkipNow()                  { panic(childSentinel{}) }
+func (c *childTB) Errorf(f string, a ...any) { fmt.Printf("TB-ERROR "+f+"\n", a...) }
+func (c *childTB) Error(a ...any)            { fmt.Println(append([]any{"TB-ERROR"}, a...)...) }
+func (c *childTB) Fatalf(f string, a ...any) { c.Errorf(f, a...); panic(childSentinel{}) }
+func (c *childTB) Fatal(a ...any)            { c.Error(a...); panic(childSentinel{}) }
+func (c *childTB) FailNow()                  { panic(childSentinel{}) }
+func (c *childTB) Fail()                     {}
+func (c *childTB) Failed() bool              { return false }
+
+// c16Prop is the property both the child and the in-process re-check run.
+func c16Prop(nlines, nelems int) func(t *rapid.T) {
+	return func(t *rapid.T) {
+		for i := 0; i < nlines; i++ {
+			t.Logf("captured output line %d", i)
+		}
+		if nelems >= 0 {
+			rapid.SliceOfN(rapid.Uint64(), nelems, nelems).Draw(t, "w")
+		}
+		t.Fatalf("boom")
+	}
+}
+
+// childMain runs on the main goroutine, which is locked to the main thread.
+func childMain(mode string) int {
+	if mode != "c16" {
+		fmt.Println("unknown child mode", mode)
+		return 2
+	}
+	nlines, _ := strconv.Atoi(os.Getenv("C16_LINES"))
+	nelems, _ := strconv.Atoi(os.Getenv("C16_ELEMS"))
+	for k, v := range map[string]string{"rapid.seed": os.Getenv("C16_SEED"), "rapid.shrinktime": "0s", "rapid.checks": "5"} {
+		if err := flag.Set(k, v); err != nil {
+			fmt.Println(err)
+			return 2
+		}
+	}
+	tb := &childTB{name: os.Getenv("C16_NAME")}
+	_ = syscall.Access(c16MarkBegin, 0)
+	func() {
+		defer func() {
+			if p := recover(); p != nil {
+				if _, ok := p.(childSentinel); !ok {
+					panic(p)
+				}
+			}
+		}()
+		rapid.Check(tb, c16Prop(nlines, nelems))
+	}()
+	_ = syscall.Access(c16MarkEnd, 0)
+	return 0
+}
+
+func c16Scenarios(cfg runCfg) []Scenario {
+	var out []Scenario
+	lines := []int{0, 1, 3, 40}
+	elems := []int{-1, 0, 1, 10, 100, 1000}
+	names := []string{"TestCrash", "Test/sub case#01", "Тест*?", "a/b\\c"}
+	n := cfg.n(96, 10)
+	for i := 0; i < n; i++ {
+		if cfg.mine(i) {
+			sc := Scenario{Family: "crash", Seed: mix(cfg.seed, 16, uint64(i)), N: lines[i%len(lines)], K: elems[(i/2)%len(elems)], S: names[(i/3)%len(names)]}
+			if mix(cfg.seed, 1616, uint64(i))%3 == 0 {
+				// the system temp directory on another file system than the working directory (rename across
+				// file systems fails with EXDEV): irrelevant as long as the temp file lives next to its target
+				sc.X = map[string]string{"tmpdir": "/dev/shm"}
+			}
+			out = append(out, sc)
+		}
+	}
+	return out
+}
+
+type scLine struct {
+	pid  string
+	name string
+	rest string
+}
+
+var reStrace = regexp.MustCompile(`^(\d+)\s+([a-z0-9_]+)\((.*)$`)
+
+func parseStrace(path string) []scLine {
+	b, err := os.ReadFile(path)
+	if err != nil {
+		return nil
+	}
+	var out []scLine
+	for _, l := range strings.Split(string(b), "\n") {
+		if m := reStrace.FindStringSubmatch(l); m != nil {
+			out = append(out, scLine{m[1], m[2], m[3]})
+		} else if strings.Contains(l, "+++ killed by") || strings.Contains(l, "+++ exited") {
+			f := strings.Fields(l)
+			out = append(out, scLine{f[0], "+++", l})
+		}
+	}
+	return out
+}
+
+func (sc Scenario) c16Env() []string {
+	env := os.Environ()
+	if td := sc.X["tmpdir"]; td != "" {
+		if st, err := os.Stat(td); err == nil && st.IsDir() {
+			env = append(env, "TMPDIR="+td)
+		}
+	}
+	return append(env, "C16_NAME="+sc.S, fmt.Sprintf("C16_LINES=%d", sc.N), fmt.Sprintf("C16_ELEMS=%d", sc.K), fmt.Sprintf("C16_SEED=%d", sc.Seed%100000+1), "GOMAXPROCS=1", "GOGC=off")
+}
+
+func runChild(sc Scenario, dir string, inject string) (trace []scLine, killed bool, err error) {
+	self, _ := os.Executable()
+	os.MkdirAll(dir, 0o775)
+	log := filepath.Join(dir, "..", filepath.Base(dir)+".strace")
+	args := []string{"-f", "-o", log, "-e", "trace=" + c16Syscalls}
+	if inject != "" {
+		args = append(args, "-e", "inject="+inject)
+	}
+	args = append(args, self, "-verif.child=c16")
+	cmd := exec.Command("strace", args...)
+	cmd.Dir = dir
+	cmd.Env = sc.c16Env()
+	out, runErr := cmd.CombinedOutput()
+	trace = parseStrace(log)
+	os.Remove(log)
+	for _, l := range trace {
+		if l.name == "+++" && strings.Contains(l.rest, "killed by SIGKILL") {
+			killed = true
+		}
+	}
+	if runErr != nil && !killed {
+		return trace, killed, fmt.Errorf("child failed: %v: %s", runErr, clip(string(out), 400))
+	}
+	return trace, killed, nil
+}
+
+var reStamp = regexp.MustCompile(`\d{4}/\d{2}/\d{2} \d{2}:\d{2}:\d{2}\.\d{6}`)
+
+func normFailFile(b []byte) string { return reStamp.ReplaceAllString(string(b), "<T>") }
+
+func c16Run(t *testing.T, sc Scenario, res *Result) {
+	base, err := os.MkdirTemp(".", "c16-")
+	if err != nil {
+		panic(err)
+	}
+	base, _ = filepath.Abs(base)
+	defer os.RemoveAll(base)
+	name := sc.S
+
+	// step 1: uninterrupted reference run, traced
+	refDir := filepath.Join(base, "ref")
+	trace, _, err := runChild(sc, refDir, "")
+	if err != nil || len(trace) == 0 {
+		res.inconclusive(fmt.Sprintf("reference run failed: %v", err))
+		return
+	}
+	mainPid := trace[0].pid
+	type point struct {
+		name string
+		j    int // ordinal among the main thread's calls of that name since process start
+		args string
+	}
+	var points []point
+	counts := map[string]int{}
+	inSave := false
+	sawEnd := false
+	var saveTrace []scLine
+	for _, l := range trace {
+		if l.pid != mainPid || l.name == "+++" {
+			continue
+		}
+		counts[l.name]++
+		if strings.Contains(l.rest, c16MarkBegin) {
+			inSave = true
+			continue
+		}
+		if strings.Contains(l.rest, c16MarkEnd) {
+			inSave = false
+			sawEnd = true
+			continue
+		}
+		if !inSave {
+			continue
+		}
+		saveTrace = append(saveTrace, l)
+		switch l.name {
+		case "access", "faccessat", "faccessat2":
+			continue // reads only
+		}
+		points = append(points, point{l.name, counts[l.name], clip(l.rest, 90)})
+	}
+	if !sawEnd || len(points) == 0 {
+		res.inconclusive(fmt.Sprintf("markers not found in the reference trace (%d lines)", len(trace)))
+		return
+	}
+	wd, _ := os.Getwd()
+	os.Chdir(refDir)
+	refFinal, refTemps, _ := listFailDir(name)
+	os.Chdir(wd)
+	if len(refFinal) != 1 || len(refTemps) != 0 {
+		res.violate(sc, "c16/ref-dir", fmt.Sprintf("uninterrupted save left %d fail files and %d temp files", len(refFinal), len(refTemps)), map[string]any{"trace": traceStr(saveTrace, 40)})
+		return
+	}
+	refBytes, _ := os.ReadFile(filepath.Join(refDir, refFinal[0]))
+	refNorm := normFailFile(refBytes)
+	_, _, refWords, _, err := readFailFile(filepath.Join(refDir, refFinal[0]))
+	if err != nil {
+		res.violate(sc, "c16/ref-parse", "reference fail file does not parse: "+err.Error(), nil)
+		return
+	}
+	res.inc("scenarios_traced")
+	res.count("save_syscalls", int64(len(points)))
+
+	// trace oracle: the final name only ever appears as a rename target whose source was closed after its last write
+	san := sanitize(name)
+	finalRe := regexp.MustCompile(`"[^"]*/` + regexp.QuoteMeta(san) + `-[^"/]*\.fail"`)
+	openFds := map[string]string{} // fd -> path
+	closedTemp := map[string]bool{}
+	for _, l := range saveTrace {
+		switch l.name {
+		case "openat", "open", "creat":
+			if finalRe.MatchString(l.rest) && (strings.Contains(l.rest, "O_WRONLY") || strings.Contains(l.rest, "O_RDWR") || strings.Contains(l.rest, "O_CREAT") || l.name == "creat") {
+				res.violate(sc, "c16/trace-open-final", "a file matching the discovery pattern was opened for writing / created directly: "+clip(l.rest, 200), map[string]any{"trace": traceStr(saveTrace, 60)})
+			}
+			if i := strings.LastIndex(l.rest, "= "); i >= 0 {
+				if q := strings.Split(l.rest, `"`); len(q) >= 2 {
+					openFds[strings.TrimSpace(l.rest[i+2:])] = q[1]
+				}
+			}
+		case "close":
+			fd := strings.TrimSuffix(strings.SplitN(l.rest, ")", 2)[0], " ")
+			if p, ok := openFds[fd]; ok {
+				closedTemp[filepath.Base(p)] = true
+				delete(openFds, fd)
+			}
+		case "rename", "renameat", "renameat2":
+			q := strings.Split(l.rest, `"`)
+			if len(q) >= 4 {
+				src, dst := q[1], q[3]
+				if finalRe.MatchString(`"`+dst+`"`) || strings.HasSuffix(dst, ".fail") {
+					if !closedTemp[filepath.Base(src)] {
+						res.violate(sc, "c16/trace-rename-open", "temp file renamed to the final name before it was closed: "+clip(l.rest, 200), map[string]any{"trace": traceStr(saveTrace, 60)})
+					}
+					for fd, p := range openFds {
+						if filepath.Base(p) == filepath.Base(src) {
+							res.violate(sc, "c16/trace-rename-open", fmt.Sprintf("temp file %s still open (fd %s) when renamed", p, fd), map[string]any{"trace": traceStr(saveTrace, 60)})
+						}
+					}
+				}
+			}
+		case "link", "linkat", "symlink", "symlinkat":
+			if finalRe.MatchString(l.rest) {
+				res.violate(sc, "c16/trace-link", "final name created by link: "+clip(l.rest, 200), nil)
+			}
+		}
+	}
+
+	// step 2: kill the child on entry to every one of those calls
+	states := map[string]int{}
+	for pi, p := range points {
+		dir := filepath.Join(base, fmt.Sprintf("k%03d", pi))
+		tr, killed, err := runChild(sc, dir, fmt.Sprintf("%s:signal=KILL:when=%d", p.name, p.j))
+		res.inc("crash_runs")
+		if err != nil {
+			res.inconclusive("crash run failed to start: " + err.Error())
+			continue
+		}
+		if !killed {
+			res.inc("crash_point_not_reached")
+			res.inconclusive(fmt.Sprintf("child survived injection %s#%d", p.name, p.j))
+			continue
+		}
+		// where did the kill land?
+		landed := "?"
+		for i := len(tr) - 1; i >= 0; i-- {
+			if tr[i].name != "+++" {
+				landed = tr[i].name
+				if tr[i].pid == mainPid || true {
+					break
+				}
+			}
+		}
+		res.inc("killed_at:" + landed)
+		res.nontrivial(fmt.Sprintf("%x/%s#%d", sc.Seed, p.name, p.j))
+		os.Chdir(dir)
+		final, temps, _ := listFailDir(name)
+		state := fmt.Sprintf("final=%d,temp=%d", len(final), len(temps))
+		states[state]++
+		res.inc("dirstate:" + state)
+		detail := map[string]any{"crash_point": fmt.Sprintf("%s #%d %s", p.name, p.j, p.args), "index": pi, "of": len(points), "final_files": final, "temp_files": temps, "save_trace": traceStr(saveTrace, 60)}
+		for _, f := range final {
+			b, _ := os.ReadFile(f)
+			if _, _, _, _, err := readFailFile(f); err != nil {
+				res.violate(sc, "c16/partial-visible", fmt.Sprintf("after a kill at %s#%d a file that a later run picks up does not parse: %v (%d bytes)", p.name, p.j, err, len(b)), detail)
+			} else if normFailFile(b) != refNorm {
+				res.violate(sc, "c16/incomplete-visible", fmt.Sprintf("after a kill at %s#%d a picked-up fail file differs from an uninterrupted save (%d vs %d bytes)", p.name, p.j, len(b), len(refBytes)), detail)
+			}
+		}
+		// a later run in that directory: replays the complete file or finds nothing; never trips over leftovers
+		lg := &Log{}
+		setFlags(map[string]string{"rapid.nofailfile": "true", "rapid.shrinktime": "0s", "rapid.checks": "5", "rapid.seed": fmt.Sprint(sc.Seed%100000 + 1)})
+		tb := newTB(name)
+		prop := c16Prop(sc.N, sc.K)
+		runCheck(tb, lg.prop(func(x *X) { prop(x.t) }))
+		rp := parseReport(tb)
+		for _, l := range tb.logs() {
+			if strings.Contains(l, "ignoring fail file") || strings.Contains(l, "no longer") {
+				detail["later_run"] = tb.brief()
+				res.violate(sc, "c16/later-run-trips", "a later run tripped over what the killed save left behind: "+clip(l, 200), detail)
+			}
+		}
+		if len(final) > 0 {
+			if rp.N != 0 || len(lg.Invs) == 0 || lg.Invs[0].Kind != "buffer" || !wordsEqual(lg.Invs[0].Cand, refWords) {
+				detail["later_run"] = tb.brief()
+				res.violate(sc, "c16/later-run-replay", "a complete fail file was left but the later run did not replay the reference test case first", detail)
+			}
+			res.inc("later_run_replayed")
+		} else {
+			if len(lg.Invs) > 0 && lg.Invs[0].Kind == "buffer" {
+				detail["later_run"] = tb.brief()
+				res.violate(sc, "c16/later-run-phantom", "no complete fail file exists but the later run replayed something", detail)
+			}
+			res.inc("later_run_found_nothing")
+		}
+		os.Chdir(wd)
+		os.RemoveAll(dir)
+	}
+	if res.wantSample() {
+		var pts []string
+		for _, p := range points {
+			pts = append(pts, fmt.Sprintf("%s#%d %s", p.name, p.j, clip(p.args, 60)))
+		}
+		sort.Strings(pts)
+		res.sample(map[string]any{"name": name, "output_lines": sc.N, "slice_elems": sc.K, "fail_file_bytes": len(refBytes), "crash_points": clipList(pts, 40), "directory_states_after_kill": states})
+	}
+}
+
+func traceStr(tr []scLine, n int) []string {
+	var out []string
+	for i, l := range tr {
+		if i >= n {
+			out = append(out, fmt.Sprintf("...+%d", len(tr)-i))
+			break
+		}
+		out = append(out, l.name+"("+clip(l.rest, 110))
+	}
+	return out
+}
